@@ -4,11 +4,17 @@ in isolation from /verif and /repo (scratch worktree + scratch copy of /verif).
 
    tools/seedrun.py <name>=<seed_dir>[:<Cxx,Cyy>] ...
 
-seed_dir holds patch.diff, a demo (demo.rs) and meta.json {"property": "Cxx", ...}.
-Results: /tmp/seedrun/results/<name>.json. Confirmed seeds are copied to
-/verif/seeded/<name>/ with the meta extended by what was run here."""
+seed_dir holds patch.diff, meta.json {"property": "Cxx", ...} and a demonstration in one of the forms
+   demo.rs                      integration test (tests/demo.rs; `cargo test --test demo`)
+   demo_unit.diff               patch adding src/test/demo.rs (`cargo test --lib test::demo`)
+   demo.py + demo_example.rs    pty script driving examples/<name>.rs (argv[1] = binary)
+   demo.py + demo.rs            pty script that builds examples/demo.rs itself (env WT, CARGO_TARGET_DIR)
+Results: /tmp/seedrun/results/<name>.json. Confirmed seeds are copied to /verif/seeded/<name>/ with the
+meta extended by what was run here. Nothing is left under /tmp/seedrun afterwards except results/."""
+import glob
 import json
 import os
+import re
 import shutil
 import subprocess
 import sys
@@ -25,81 +31,156 @@ def sh(cmd, cwd=None, env=None, timeout=3600):
     e["CARGO_NET_OFFLINE"] = "true"
     if env:
         e.update(env)
-    p = subprocess.run(["bash", "-o", "pipefail", "-c", cmd], cwd=cwd, env=e, stdout=subprocess.PIPE, stderr=subprocess.STDOUT, timeout=timeout)
-    return p.returncode, p.stdout.decode("utf-8", "replace")
+    try:
+        p = subprocess.run(["bash", "-o", "pipefail", "-c", cmd], cwd=cwd, env=e, stdout=subprocess.PIPE,
+                           stderr=subprocess.STDOUT, timeout=timeout)
+        return p.returncode, p.stdout.decode("utf-8", "replace")
+    except subprocess.TimeoutExpired as ex:
+        return 124, "TIMEOUT " + (ex.stdout or b"").decode("utf-8", "replace")[-500:]
+
+
+class Demo:
+    """how to run the demonstration in the worktree: returns (passed, description)"""
+
+    def __init__(self, sdir, prop):
+        self.sdir, self.prop = sdir, prop
+        f = lambda n: os.path.exists(os.path.join(sdir, n))
+        self.features = " --features with-sqlite-history" if prop == "C20" else ""
+        if f("demo_unit.diff"):
+            self.kind = "unit"
+        elif f("demo.py") and f("demo_example.rs"):
+            self.kind = "pty_example"
+            src = open(os.path.join(sdir, "demo.py")).read()
+            m = re.search(r"examples/(\w+)['\"\s]", src)
+            self.example = "demo_example"
+            m2 = re.search(r"target/debug/examples/(\w+)", src)
+            if m2:
+                self.example = m2.group(1)
+        elif f("demo.py") and f("demo.rs"):
+            self.kind = "pty_selfbuild"
+        elif f("demo.rs"):
+            self.kind = "test"
+        else:
+            self.kind = "none"
+
+    def files(self):
+        return [n for n in ("demo.rs", "demo.py", "demo_example.rs", "demo_unit.diff") if os.path.exists(os.path.join(self.sdir, n))]
+
+    def run(self, env):
+        s = self.sdir
+        if self.kind == "unit":
+            rc, out = sh("git apply %s/demo_unit.diff && cargo test --offline --lib test::demo 2>&1 | tail -25" % s, cwd=WT, env=env)
+            sh("git apply -R %s/demo_unit.diff" % s, cwd=WT)
+            ok = "test result: ok" in out and "FAILED" not in out and "error" not in out
+            return ok, "git apply demo_unit.diff; cargo test --offline --lib test::demo", out
+        if self.kind == "test":
+            os.makedirs(WT + "/tests", exist_ok=True)
+            shutil.copy(s + "/demo.rs", WT + "/tests/demo.rs")
+            rc, out = sh("cargo test --offline%s --test demo 2>&1 | tail -25" % self.features, cwd=WT, env=env)
+            os.remove(WT + "/tests/demo.rs")
+            if not os.listdir(WT + "/tests"):
+                os.rmdir(WT + "/tests")
+            ok = "test result: ok" in out and "FAILED" not in out and "error[" not in out
+            return ok, "tests/demo.rs; cargo test --offline%s --test demo" % self.features, out
+        if self.kind == "pty_example":
+            shutil.copy(s + "/demo_example.rs", WT + "/examples/%s.rs" % self.example)
+            rc, out = sh("cargo build --offline --example %s 2>&1 | tail -5" % self.example, cwd=WT, env=env)
+            binp = "%s/debug/examples/%s" % (TARGET, self.example)
+            if rc != 0 or not os.path.exists(binp):
+                os.remove(WT + "/examples/%s.rs" % self.example)
+                return None, "build of the example failed", out
+            rc, out = sh("python3 %s/demo.py %s 2>&1 | tail -25" % (s, binp), cwd=WT, env=env, timeout=900)
+            os.remove(WT + "/examples/%s.rs" % self.example)
+            return rc == 0, "examples/%s.rs; python3 demo.py <binary> (exit %d)" % (self.example, rc), out
+        if self.kind == "pty_selfbuild":
+            shutil.copy(s + "/demo.rs", WT + "/examples/demo.rs")
+            e = dict(env)
+            e["WT"] = WT
+            rc, out = sh("python3 %s/demo.py 2>&1 | tail -25" % s, cwd=WT, env=e, timeout=900)
+            os.remove(WT + "/examples/demo.rs")
+            return rc == 0, "examples/demo.rs; WT=<worktree> python3 demo.py (exit %d)" % rc, out
+        return None, "no demonstration", ""
 
 
 def main():
     os.makedirs(ROOT + "/results", exist_ok=True)
     sh("git -C /repo worktree remove --force %s" % WT)
+    sh("git -C /repo worktree prune")
     rc, out = sh("git -C /repo worktree add --detach %s HEAD" % WT)
     if rc != 0:
         print(out)
         return 1
     shutil.copy("/repo/Cargo.lock", WT + "/Cargo.lock")
-    sh("rsync -a --delete --exclude replay --exclude .git /verif/ %s/" % VCOPY)
+    sh("rsync -a --delete --exclude replay --exclude .git --exclude seeded /verif/ %s/" % VCOPY)
+    env = {"CARGO_TARGET_DIR": TARGET}
     for arg in sys.argv[1:]:
         name, rest = arg.split("=", 1)
         sdir, _, props = rest.partition(":")
+        sdir = os.path.abspath(sdir)
         meta = json.load(open(sdir + "/meta.json"))
-        props = props.split(",") if props else [meta["property"]]
-        r = {"name": name, "seed_dir": sdir, "property": meta["property"], "ran": []}
+        prop = meta["property"]
+        props = props.split(",") if props else [prop]
+        r = {"name": name, "seed_dir": sdir, "property": prop, "ran": []}
         t0 = time.time()
         sh("git checkout -- . && git clean -fdq -e Cargo.lock", cwd=WT)
-        env = {"CARGO_TARGET_DIR": TARGET}
-        demo = sdir + "/demo.rs"
-        have_demo = os.path.exists(demo)
-        if have_demo:
-            os.makedirs(WT + "/tests", exist_ok=True)
-            shutil.copy(demo, WT + "/tests/demo.rs")
-            rc, out = sh("cargo test --offline --test demo 2>&1 | tail -15", cwd=WT, env=env)
-            r["demo_clean_pass"] = ("test result: ok" in out) and ("FAILED" not in out)
-            r["ran"].append("clean tree: cargo test --offline --test demo -> %s" % ("pass" if r["demo_clean_pass"] else "FAIL"))
-            os.remove(WT + "/tests/demo.rs")
+        demo = Demo(sdir, prop)
+        ok, how, out = demo.run(env)
+        r["demo_kind"] = demo.kind
+        r["demo_clean_pass"] = ok
+        r["ran"].append("clean tree: %s -> %s" % (how, "pass" if ok else "FAIL" if ok is False else "n/a"))
+        if ok is False:
+            r["demo_clean_tail"] = out[-800:]
         rc, out = sh("git apply %s/patch.diff" % sdir, cwd=WT)
         r["patch_applies"] = rc == 0
-        rc, out = sh("cargo test --workspace --offline 2>&1 | grep -E '^test result|FAILED|error' | head", cwd=WT, env=env)
+        suite = "cargo test --workspace --offline 2>&1 | grep -E '^test result|FAILED|^error' | head"
+        rc, out = sh(suite, cwd=WT, env=env)
         r["suite_pass_with_patch"] = ("182 passed" in out) and ("FAILED" not in out) and ("error" not in out)
         r["ran"].append("patched tree: cargo test --workspace --offline -> %s" % out.strip().replace("\n", " | ")[:300])
-        if have_demo:
-            shutil.copy(demo, WT + "/tests/demo.rs")
-            rc, out = sh("cargo test --offline --test demo 2>&1 | tail -15", cwd=WT, env=env)
-            r["demo_patched_fails"] = ("FAILED" in out) or ("panicked" in out)
-            r["ran"].append("patched tree: cargo test --offline --test demo -> %s" % ("fails (as intended)" if r["demo_patched_fails"] else "passes?!"))
-            os.remove(WT + "/tests/demo.rs")
-            if not os.listdir(WT + "/tests"):
-                os.rmdir(WT + "/tests")
+        if prop == "C20":
+            rc, out = sh(suite.replace("--offline", "--offline --features with-sqlite-history"), cwd=WT, env=env)
+            r["suite_pass_with_patch"] = r["suite_pass_with_patch"] and ("FAILED" not in out) and ("error" not in out) and "passed" in out
+            r["ran"].append("patched tree: cargo test --workspace --offline --features with-sqlite-history -> %s" % out.strip().replace("\n", " | ")[:300])
+        ok2, how, out = demo.run(env)
+        r["demo_patched_fails"] = (ok2 is False)
+        r["ran"].append("patched tree: %s -> %s" % (how, "fails (as intended)" if ok2 is False else "passes?!" if ok2 else "n/a"))
+        r["demo_patched_tail"] = out[-600:]
         r["checks"] = {}
         for p in props:
-            rc, out = sh("./check %s quick 2>&1 | tail -12" % p, cwd=VCOPY, env={"VERIF_REPO": WT})
+            if not os.path.exists(VCOPY + "/coq/theories/Props/%s.v" % p):
+                r["checks"][p] = {"exit": None, "violations": [], "tail": "no check for this property yet"}
+                continue
+            rc, out = sh("./check %s quick 2>&1 | tail -14" % p, cwd=VCOPY, env={"VERIF_REPO": WT})
             viol = [l for l in out.splitlines() if l.startswith("VIOLATION")]
-            r["checks"][p] = {"exit": rc, "violations": viol, "tail": out[-600:]}
+            r["checks"][p] = {"exit": rc, "violations": viol, "tail": out[-800:]}
             r["ran"].append("VERIF_REPO=<patched tree> ./check %s quick -> exit %d, %d VIOLATION line(s)" % (p, rc, len(viol)))
-            # keep one replay for the record
             for v in viol[:1]:
                 path = v.split("replay=")[1].split()[0]
                 try:
-                    r["checks"][p]["replay"] = json.load(open(path.replace("/verif/", VCOPY + "/")))
+                    rp = json.load(open(path.replace("/verif/", VCOPY + "/")))
+                    r["checks"][p]["replay"] = {k: (v2 if len(json.dumps(v2)) < 1500 else json.dumps(v2)[:1500]) for k, v2 in rp.items()}
                 except Exception:
                     pass
         r["wall_s"] = round(time.time() - t0, 1)
         r["confirmed"] = bool(r.get("patch_applies") and r.get("suite_pass_with_patch") and
-                              (not have_demo or (r.get("demo_clean_pass") and r.get("demo_patched_fails"))))
+                              r.get("demo_clean_pass") and r.get("demo_patched_fails"))
         json.dump(r, open("%s/results/%s.json" % (ROOT, name), "w"), indent=1)
-        print(name, "confirmed" if r["confirmed"] else "NOT-confirmed",
-              {p: (c["exit"], len(c["violations"])) for p, c in r["checks"].items()}, flush=True)
+        print(name, "confirmed" if r["confirmed"] else "NOT-confirmed(%s,%s,%s,%s)" % (
+            r.get("patch_applies"), r.get("suite_pass_with_patch"), r.get("demo_clean_pass"), r.get("demo_patched_fails")),
+            {p: (c["exit"], len(c["violations"])) for p, c in r["checks"].items()}, flush=True)
         if r["confirmed"]:
             dst = "/verif/seeded/" + name
             os.makedirs(dst, exist_ok=True)
             shutil.copy(sdir + "/patch.diff", dst + "/patch.diff")
-            if have_demo:
-                shutil.copy(demo, dst + "/demo.rs")
+            for fn in demo.files():
+                shutil.copy(os.path.join(sdir, fn), os.path.join(dst, fn))
             m = dict(meta)
             m["confirmed_by_seedrun"] = r["ran"]
             m["detected_by"] = {p: (c["exit"] == 1 and len(c["violations"]) > 0) for p, c in r["checks"].items()}
             m["violation_lines"] = {p: c["violations"] for p, c in r["checks"].items()}
             json.dump(m, open(dst + "/meta.json", "w"), indent=1)
     sh("git -C /repo worktree remove --force %s" % WT)
+    shutil.rmtree(TARGET, ignore_errors=True)
+    shutil.rmtree(VCOPY, ignore_errors=True)
     return 0
 
 
